@@ -11,7 +11,7 @@ def den_osu(lines):
 
     d = ro.parse_osu(lines)
     objs = [(h["column"], float(h["offset"]), None) for h in d["hits"]] + [(h["column"], float(h["offset"]), float(h["offset"] + h["length"])) for h in d["holds"]]
-    return [dict(objects=sorted(objs, key=lambda o: (o[0], o[1])), tempo=sorted((b["offset"], b["bpm"]) for b in d["bpms"]), problems=d["problems"], keys=d["keys"])]
+    return [dict(objects=sorted(objs, key=lambda o: (o[0], o[1], -1.0 if o[2] is None else o[2])), tempo=sorted((b["offset"], b["bpm"]) for b in d["bpms"]), problems=d["problems"], keys=d["keys"])]
 
 
 def den_qua(text):
@@ -23,7 +23,7 @@ def den_qua(text):
         t = float(o.get("StartTime", 0))
         objs.append((o.get("Lane", 1) - 1, t, float(o["EndTime"]) if "EndTime" in o else None))
     tempo = sorted((float(b.get("StartTime", 0)), float(b["Bpm"])) for b in doc["TimingPoints"] if "Bpm" in b)
-    return [dict(objects=sorted(objs, key=lambda o: (o[0], o[1])), tempo=tempo, problems=[], mode=doc.get("Mode"))]
+    return [dict(objects=sorted(objs, key=lambda o: (o[0], o[1], -1.0 if o[2] is None else o[2])), tempo=tempo, problems=[], mode=doc.get("Mode"))]
 
 
 def den_sm(text):
@@ -39,7 +39,7 @@ def den_sm(text):
                 objs.append((col, float(t), None))
             elif kind == "hold":
                 objs.append((col, float(t), float(t + ln)))
-        out.append(dict(objects=sorted(objs, key=lambda o: (o[0], o[1])), tempo=[(float(t), float(v)) for t, v, _ in tl.points()],
+        out.append(dict(objects=sorted(objs, key=lambda o: (o[0], o[1], -1.0 if o[2] is None else o[2])), tempo=[(float(t), float(v)) for t, v, _ in tl.points()],
                         problems=list(d["problems"]) + ch["problems"], type=ch.get("type"),
                         other_kinds=sorted({k for k, *_ in ch.get("objs", []) if k not in ("hit", "hold")})))
     return out
@@ -52,7 +52,7 @@ def den_bms(data, lanes):
     tl = d["timeline"]
     objs = [(c, float(tl.ms_of_beat(b)), None) for c, b, _ in d["hits"]] + [(c, float(tl.ms_of_beat(b0)), float(tl.ms_of_beat(b1))) for c, b0, b1, _ in d["holds"]]
     probs = list(d["problems"]) + (rbms.syntax_problems(data) if isinstance(data, bytes) else [])
-    return [dict(objects=sorted(objs, key=lambda o: (o[0], o[1])), tempo=[(float(t), float(v)) for t, v, _ in tl.points()], problems=probs)]
+    return [dict(objects=sorted(objs, key=lambda o: (o[0], o[1], -1.0 if o[2] is None else o[2])), tempo=[(float(t), float(v)) for t, v, _ in tl.points()], problems=probs)]
 
 
 def den_ojn(b):
@@ -63,7 +63,7 @@ def den_ojn(b):
     for lvl in d["levels"]:
         h, ho, pts, probs = rojn.level_den(d["hdr"]["bpm"], lvl)
         objs = [(c, float(t), None) for c, t, _, _ in h] + [(c, float(t), float(t + ln)) for c, t, ln, _, _ in ho]
-        out.append(dict(objects=sorted(objs, key=lambda o: (o[0], o[1])), tempo=[(float(t), float(v)) for t, v in pts], problems=probs))
+        out.append(dict(objects=sorted(objs, key=lambda o: (o[0], o[1], -1.0 if o[2] is None else o[2])), tempo=[(float(t), float(v)) for t, v in pts], problems=probs))
     return out
 
 
